@@ -103,7 +103,7 @@ CLAIMED = {
         "reductions, two-operation programs, nodes with two fusable dependencies (Join), einsum patterns that pick index letters "
         "while parsing, map_blocks with a harness function / an importable NumPy function / a wrapper borrowing its identity): per "
         "program five identity records - built, built again in the same process, pickle "
-        "round trip in the same process, built in a fresh interpreter started with PYTHONHASHSEED=4242, unpickled in that "
+        "round trip in the same process, built in fresh interpreters started with PYTHONHASHSEED=4242 and =17, unpickled in the first "
         "interpreter - each with the collection name, `__dask_keys__()`, the optimized graph's key set, "
         "`__frisky_output_keys__()`, chunks, dtype and a fingerprint of the computed values; TLC requires all to equal the first.  Between "
         "the two in-process builds an unrelated history step runs (the genuine numpy.round used as a block function elsewhere).",
